@@ -100,3 +100,33 @@ def physical_maps(r):
         pmap[tuple(ch[::-1])] = key
     inv = {v: j for j, v in r.jmap.items()}
     return pmap, inv
+
+
+def axis_segment(rng, at, r):
+    """rotate the realised mesh (and the abstract tissue with it) so that the FIRST SEGMENT of a curved internal interface at one
+    of its junctions is exactly parallel to a coordinate axis (the neighbouring point gets the junction's coordinate, a move
+    of one rounding error).  Returns (rotated tissue, description) or (at, None) when no interface qualifies.  r is changed in
+    place and keeps describing the rotated tissue."""
+    from fv.oracle import fb
+    cand = [k for k in fb.internal_keys(at, r.ks) if r.ks[k] >= 1 and abs(at.PHI[k]) > 1e-3]
+    if not cand:
+        return at, None
+    k = cand[int(rng.integers(len(cand)))]
+    j = sorted(k)[int(rng.integers(2))]
+    seg = first_segment(r, k, j)
+    axis = int(rng.integers(4))
+    th = [0, np.pi / 2, np.pi, -np.pi / 2][axis] - float(np.angle(seg))
+    f = np.exp(1j * th)
+    for v in r.vertices.values():
+        z = f * complex(v.x, v.y)
+        v.x, v.y = float(z.real), float(z.imag)
+    at2 = at.similarity(theta=th)
+    r.at = at2
+    ch = r.imap[k]
+    vj = r.jmap[j]
+    a, b = (ch[0], ch[1]) if ch[0] == vj else (ch[-1], ch[-2])
+    if axis in (0, 2):
+        r.vertices[b].y = r.vertices[a].y
+    else:
+        r.vertices[b].x = r.vertices[a].x
+    return at2, {"key": sorted(k), "junction": j, "axis": axis, "theta": th}
